@@ -259,23 +259,33 @@ def alphabet(tls):
 
 
 def history_strategy(maxlen):
-    a = st.integers(0, 2)
-    op = st.one_of(
-        st.builds(lambda x, k: ["accept", x, k], a, st.integers(0, 2)),
-        st.builds(lambda x, k: ["accept", x, k], st.integers(0, 1), st.integers(0, 1)),
-        st.sampled_from([["connects"], ["all"], ["connects"], ["all"], ["axes"], ["cxes"]]),
-        st.builds(lambda x: ["peerclose", x], a),
-        st.builds(lambda x, n: ["peerdata", x, n], a, st.integers(1, 9)),
-        st.builds(lambda x, b: ["remove", x, int(b)], a, st.booleans()),
-        st.builds(lambda x: ["close", x], a),
-        st.builds(lambda x, h: ["shutdown", x, h], a, st.integers(0, 2)),
+    """Histories are built from short phrases (accept; accept + service; service; peer close + service;
+    single table operations) with addresses biased towards address 0, so that most histories accept
+    again from an address that still has an entry (measured: see the class counts in the evidence)."""
+    a = st.sampled_from([0, 0, 0, 1, 1, 2])
+    k = st.sampled_from([0, 0, 1, 2])
+    service = st.sampled_from([["connects"], ["all"], ["connects"], ["all"], ["axes"], ["cxes"]])
+    phrase = st.one_of(
+        st.builds(lambda x, h: [["accept", x, h]], a, k),
+        st.builds(lambda x, h, sv: [["accept", x, h], sv], a, k, service),
+        st.builds(lambda x, h, sv: [["accept", x, h], sv], a, k, service),
+        st.builds(lambda x, h, sv: [["accept", x, h], sv, sv], a, k, service),
+        st.builds(lambda sv: [sv], service),
+        st.builds(lambda x, sv: [["peerclose", x], sv], a, service),
+        st.builds(lambda x, n: [["peerdata", x, n]], a, st.integers(1, 9)),
+        st.builds(lambda x, b: [["remove", x, int(b)]], a, st.booleans()),
+        st.builds(lambda x: [["close", x]], a),
+        st.builds(lambda x, h: [["shutdown", x, h]], a, st.integers(0, 2)),
     )
-    return st.lists(op, min_size=2, max_size=maxlen)
+    return st.lists(phrase, min_size=4, max_size=max(4, maxlen // 2)).map(
+        lambda ps: [op for ph in ps for op in ph][:maxlen])
 
 
 def classes_of(tls, info, nops):
     cls = ["ServerTls" if tls else "Server"]
     cls.append("repeat-address" if info["repeat"] else "no-repeat")
+    if info["repeat"] >= 2:
+        cls.append("repeat>=2")
     if info["stale_pending"]:
         cls.append("stale-pending-replaced")
     if info["stale_ready"]:
@@ -322,7 +332,7 @@ def work(shard, seed, tier):
                 ops = [alpha[shard["first"]]] + [alpha[i] for i in rest]
                 case = {"tls": tls, "ops": ops}
                 fails, info = run_case(case)
-                acc.case(key=case, nontrivial=info["repeat"] > 0, classes=classes_of(tls, info, len(ops)) + ["exh"],
+                acc.case(key=case, nontrivial=info["repeat"] > 0, classes=["exh:" + c for c in classes_of(tls, info, len(ops))],
                          sample=case if n % 1201 == 700 else None)
                 for sig, what in fails:
                     acc.fail(sig, what, case)
@@ -337,7 +347,7 @@ def work(shard, seed, tier):
     def execute(ops):
         case = {"tls": tls, "ops": ops}
         fails, info = run_case(case)
-        return Outcome(fails, nontrivial=info["repeat"] > 0, classes=classes_of(tls, info, len(ops)) + ["rand"],
+        return Outcome(fails, nontrivial=info["repeat"] > 0, classes=["rand:" + c for c in classes_of(tls, info, len(ops))],
                        key=case, sample=case)
 
     campaign(acc, history_strategy(maxlen), execute, n, seed * 1000 + shard["i"],
